@@ -102,6 +102,7 @@ type FuncVC struct {
 	execKeys []string
 	loopDescCount map[string]int
 	litMode bool
+	curSig  *types.Signature // signature of the function literal being verified (nil: the declared function)
 	freshRefs map[string]bool
 }
 
